@@ -39,4 +39,6 @@ Clauses == <<
    <<"tokens",              TagTokSpans = DeclTags(S) /\ TokTiles>> >>
 Failed == LET bad == SelectSeq(Clauses, LAMBDA c : ~c[2]) IN [j \in 1..Len(bad) |-> bad[j][1]]
 Judge == PrintT("@@EMIT@@" \o ToJson(<<tid, Bal, Failed>>))
+\* second pass for rejected cases: what the declarative definition prescribes (goes into the replay file)
+Explain == PrintT("@@EMIT@@" \o ToJson(<<tid, Bal, DeclTags(S), F.tags, F.groups>>))
 ====
